@@ -397,6 +397,8 @@ fn gen_value(rng: &mut Rng, shape: u8, i: usize, n: usize) -> f64 {
             let s = if rng.chance(1, 2) { -1.0 } else { 1.0 };      // opposite signs near f64::MAX
             s * (1.5e308 + rng.f64() * 0.2e308)
         }
+        8 => [0.1, 0.3, 0.7, 1.1, -2.3][rng.below(5) as usize],   // heavy duplicates of non-dyadic values
+        9 => 0.1,                                                 // constant, non-dyadic
         _ => 42.0,                                                // all equal
     }
 }
@@ -425,6 +427,54 @@ fn feed(out: &mut Shards, id: usize, t: &mut Td, rng: &mut Rng, shape: u8, n: us
         Err(e) => {
             out.ev(json!({"op":"Panic","in":"update","key":e.split(": ").next().unwrap_or(""),"msg":e}));
             false
+        }
+    }
+}
+
+/// a.merge(o) with the ghost extremes carried along; logs DMerge
+fn merge_into(out: &mut Shards, ds: &mut Vec<Td>, a: usize, o: usize) -> bool {
+    let other = ds[o].d.clone();
+    let r = catch(std::panic::AssertUnwindSafe(|| ds[a].d.merge(&other)));
+    if let Err(e) = r {
+        out.ev(json!({"op":"Panic","in":"merge","key":e.split(": ").next().unwrap_or(""),"msg":e}));
+        return false;
+    }
+    let (omin, omax, ocmin, ocmax) = (ds[o].smin, ds[o].smax, ds[o].cmin, ds[o].cmax);
+    if ocmin > 0 {
+        // only the extremes matter for the ghost
+        let keep = (ds[a].smin, ds[a].smax);
+        ds[a].see(omin, ocmin);
+        let _ = keep;
+        if omax > ds[a].smax { ds[a].smax = omax; ds[a].cmax = ocmax; } else if omax == ds[a].smax && omax != omin { ds[a].cmax += ocmax; } else if omax == ds[a].smax && omax == omin && ds[a].smin != ds[a].smax { ds[a].cmax += ocmax; }
+    }
+    out.ev(json!({"op":"DMerge","id":a,"src":o}));
+    true
+}
+
+/// fold parts into a fresh (empty or single-valued) accumulator: the donors still hold buffered values
+fn fold_scenario(out: &mut Shards, rng: &mut Rng, k: u16, shape: u8, parts: usize, single: bool) {
+    out.next_run("td-fold");
+    let mut ds: Vec<Td> = vec![];
+    let mk = |out: &mut Shards, ds: &mut Vec<Td>| {
+        let id = ds.len();
+        ds.push(Td { d: TDigestMut::new(k), smin: f64::INFINITY, smax: f64::NEG_INFINITY, cmin: 0, cmax: 0 });
+        out.ev(json!({"op":"DNew","id":id,"k":k}));
+        id
+    };
+    let a = mk(out, &mut ds);
+    if single && !feed(out, a, &mut ds[a], rng, shape, 1) {
+        return;
+    }
+    let cap = 2 * k as usize + 30;
+    for _ in 0..parts {
+        let o = mk(out, &mut ds);
+        // more values than the centroid bound, some of them still in the donor's buffer
+        let cnt = cap + 1 + rng.below(4 * cap as u64) as usize;
+        if !feed(out, o, &mut ds[o], rng, shape, cnt) {
+            return;
+        }
+        if !merge_into(out, &mut ds, a, o) || !chk(out, a, &mut ds[a], rng) {
+            return;
         }
     }
 }
@@ -462,21 +512,9 @@ fn scenario(out: &mut Shards, rng: &mut Rng, k: u16, shape: u8, n: usize, merges
         if rng.chance(1, 2) && !chk(out, o, &mut ds[o], rng) {
             return;
         }
-        let other = ds[o].d.clone();
-        let r = catch(std::panic::AssertUnwindSafe(|| ds[a].d.merge(&other)));
-        if let Err(e) = r {
-            out.ev(json!({"op":"Panic","in":"merge","key":e.split(": ").next().unwrap_or(""),"msg":e}));
+        if !merge_into(out, &mut ds, a, o) {
             return;
         }
-        let (omin, omax, ocmin, ocmax) = (ds[o].smin, ds[o].smax, ds[o].cmin, ds[o].cmax);
-        if ocmin > 0 {
-            // only the extremes matter for the ghost
-            let keep = (ds[a].smin, ds[a].smax);
-            ds[a].see(omin, ocmin);
-            let _ = keep;
-            if omax > ds[a].smax { ds[a].smax = omax; ds[a].cmax = ocmax; } else if omax == ds[a].smax && omax != omin { ds[a].cmax += ocmax; } else if omax == ds[a].smax && omax == omin && ds[a].smin != ds[a].smax { ds[a].cmax += ocmax; }
-        }
-        out.ev(json!({"op":"DMerge","id":a,"src":o}));
         if !chk(out, a, &mut ds[a], rng) {
             return;
         }
@@ -501,6 +539,41 @@ fn scenario(out: &mut Shards, rng: &mut Rng, k: u16, shape: u8, n: usize, merges
             if !chk(out, id_s, &mut ds[id_s], rng) {
                 return;
             }
+            // the copy and the original under the same further history: one batch of updates long enough
+            // to force several compressions, then one merge of a populated digest
+            if shape != 7 {
+                let r = catch(std::panic::AssertUnwindSafe(|| {
+                    // y: a fresh decode that no query or serialize has touched yet
+                    let mut x = ds[a].d.clone();
+                    let mut y = TDigestMut::deserialize(&bytes, false).expect("decoded above");
+                    let cn = 45 * k as usize + 300;
+                    let vals: Vec<f64> = (0..cn).map(|i| gen_value(rng, shape, i, cn)).collect();
+                    for &v in &vals {
+                        x.update(v);
+                        y.update(v);
+                    }
+                    let upd_same = x.serialize() == y.serialize();
+                    let mut donor = TDigestMut::new(k);
+                    for (i, &v) in vals.iter().enumerate().take(40 * k as usize + 7) {
+                        donor.update(v + i as f64);
+                    }
+                    let mut x = ds[a].d.clone();
+                    let mut y = TDigestMut::deserialize(&bytes, false).expect("decoded above");
+                    x.merge(&donor);
+                    y.merge(&donor);
+                    let q = [0.01, 0.25, 0.5, 0.99];
+                    let merge_same = x.serialize() == y.serialize()
+                        && (x.is_empty() || q.iter().all(|&q| x.quantile(q).map(f64::to_bits) == y.quantile(q).map(f64::to_bits)));
+                    (upd_same, merge_same)
+                }));
+                match r {
+                    Ok((u, m)) => out.ev(json!({"op":"DCont","id":a,"copy":id_s,"upd_same":u,"merge_same":m})),
+                    Err(e) => {
+                        out.ev(json!({"op":"Panic","in":"continuation","key":e.split(": ").next().unwrap_or(""),"msg":e}));
+                        return;
+                    }
+                }
+            }
             if !feed(out, id_s, &mut ds[id_s], rng, shape, 50) {
                 return;
             }
@@ -521,11 +594,20 @@ pub fn record(args: &Args) {
     let ks: Vec<u16> = if thorough { vec![10, 11, 20, 29, 30, 31, 50, 100, 200, 350, 500] } else { vec![10, 29, 30, 100, 200, 500] };
     for _ in 0..reps {
         for &k in &ks {
-            for shape in 0..8u8 {
+            for shape in 0..10u8 {
                 let n = if thorough { *rng.pick(&[1usize, 2, 5, 100, 3000, 40000, 200000]) } else { *rng.pick(&[1usize, 2, 3, 50, 1000, 12000]) };
                 let merges = if n > 50000 { 1 } else { rng.below(5) as usize };
                 scenario(&mut out, &mut rng, k, shape, n, merges);
             }
+        }
+        // a single value, copied, then a long further history on the copy and on the original
+        for &k in &[10u16, 20, 50, 100, 500] {
+            let shape = *rng.pick(&[0u8, 2, 8]);
+            scenario(&mut out, &mut rng, k, shape, 1, 0);
+        }
+        for &(k, single) in &[(10u16, false), (30, false), (30, true), (200, true), (500, true)] {
+            let shape = *rng.pick(&[0u8, 2, 3, 5]);
+            fold_scenario(&mut out, &mut rng, k, shape, if k > 100 { 3 } else { 16 }, single);
         }
         // merge tree of 16 digests
         scenario(&mut out, &mut rng, 100, 2, 2000, 15);
